@@ -973,6 +973,15 @@ func c03Corpus() []c03Case {
 			},
 			Reqs: []c03Req{rq("GET", "a.com", "/1/2/3"), rq("POST", "a.com", "/1/2/3")},
 		},
+		// C03-F3, since the repair of C03-F2 (the catch-all child's own keys reach the matcher): the renamed
+		// keys make the path_params of the first route fail ("path parameter 'a' is not expected")
+		{
+			Rules: []c03Rule{
+				{Routes: []c03Route{{Path: "/:a/*c", Params: []c03Param{ex("a", "1")}}}, Bt: true},
+				{Routes: []c03Route{{Path: "/:b/*c"}}, Methods: []string{"POST"}},
+			},
+			Reqs: []c03Req{rq("GET", "a.com", "/1/2/3")},
+		},
 		// C03-F4: exclusion without ALL
 		{
 			Rules: []c03Rule{{Routes: []c03Route{{Path: "/a"}}, Methods: []string{"!GET"}}},
